@@ -21,6 +21,9 @@ def decodeHostsRecords (s : String) : Option (List HostsRecord) :=
     | ip :: names => do some { ip := (← bytesOfHex ip), names := (← names.mapM bytesOfHex) }
     | [] => none
 
+def encodeHostsRecords (recs : List HostsRecord) : String :=
+  joinList2 (recs.map fun r => joinList ((r.ip :: r.names).map hexOfBytes))
+
 /-- configuration of the request pipeline; when `tf=` and `now=wd,hour` are given the time-frame
     control is evaluated by the model instead of being passed in as `time=`; when `hostsrec=` is given
     the localhost names are composed by the model from the hosts file's records (`hpLocalhost`)
@@ -71,6 +74,24 @@ def handle : List String → String
     match decodeHostsRecords recs, bytesOfHex host with
     | some rs, some h => s!"aliases={hexList (localhostAliases rs)} local={ofBool (isLocalhostOf (localhostAliases rs) h)}"
     | _, _ => "bad-op"
+  | ["hostsdecode", src] =>
+    -- what `NewHTTPProxy` makes of a hosts file: it fails (`err=`), or the records `Decode` yields, the
+    -- aliases and `hp.localhost`; `loose=` are the records a reader that skips what it cannot read sees
+    let source : Option HostsSource :=
+      if src == "missing" then some .missing else if src == "unreadable" then some .unreadable
+      else (bytesOfHex src).map .text
+    match source with
+    | none => "bad-op"
+    | some source =>
+      let loose := match source with
+        | .text t => encodeHostsRecords (looseRecords hostsMaxToken (hostsLines t))
+        | _ => "~"
+      match source, hpLocalhostOf source with
+      | _, .error e => s!"err={e.name} loose={loose}"
+      | .text t, .ok names =>
+        let recs := match decodeHosts t with | .ok rs => rs | .error _ => []
+        s!"ok recs={encodeHostsRecords recs} aliases={hexList (localhostAliases recs)} names={hexList names} loose={loose}"
+      | _, .ok names => s!"ok recs=~ aliases=~ names={hexList names} loose={loose}"
   | ["parseip", s] =>
     match bytesOfHex s with
     | some b => ipString (parseIP b)
